@@ -67,6 +67,15 @@ def representatives(seed):
         arrs[f"f-{n}"] = np.where(k_ % 5 == 0, np.nan, (k_ - 7) / 3.0)
         arrs[f"b-{n}"] = (k_ % 3 == 0)
         arrs[f"m-neg-{n}"] = (-(k_ % 129) * 7).astype("timedelta64[ns]")
+    # long columns with few runs (an encoder may store runs): zeros whose SIGN changes between runs, NaN runs, equal-comparing ints of bool
+    for n in (64, 96, 300):
+        k_ = np.arange(n)
+        arrs[f"f-signed-zero-runs-{n}"] = np.where((k_ // 10) % 2 == 0, 0.0, -0.0)
+        arrs[f"f-nan-runs-{n}"] = np.where((k_ // 7) % 3 == 0, np.nan, 1.5)
+        arrs[f"f-zero-one-{n}"] = np.where((k_ // 9) % 2 == 0, -0.0, 1.0)
+    # dtypes whose unit carries a multiplier (timedelta64[500us], datetime64[10ms])
+    arrs["m-500us"] = np.array([1, 2, 3, 7], dtype="timedelta64[500us]")
+    arrs["m-25ns-nat"] = np.array([5, "NaT", -3], dtype="timedelta64[25ns]")
     # a regular grid of times (a PRF of exactly 1 kHz / 1 MHz / 1 Hz: every difference a multiple of a coarser unit) whose FIRST time is not
     for n in (16, 17, 300):
         k_ = np.arange(n, dtype="int64")
